@@ -8,10 +8,13 @@ VARIABLES fam, a, b, exp
 vars == <<fam, a, b, exp>>
 I(n) == IntV(FromInt(n))
 S(s) == Str(s)
-IntPool == { IntV(x) : x \in {IntMin(64), Add(IntMin(64), One), FromInt(-1), Z, One, FromInt(2), Pow2(31), Pow2(32), Sub(IntMax(64), One), IntMax(64)} }
-UintPool == { UintV(x) : x \in {Z, One, Pow2(32), Pow2(63), Sub(Pow2(63), One), Sub(UintMax(64), One), UintMax(64)} }
+IntPool == { IntV(x) : x \in {IntMin(64), Add(IntMin(64), One), FromInt(-1), Z, One, FromInt(2), Pow2(31), Pow2(32), Pow2(53), Add(Pow2(53), One), Sub(IntMax(64), One), IntMax(64)} }
+UintPool == { UintV(x) : x \in {Z, One, Pow2(32), Pow2(53), Add(Pow2(53), One), Pow2(63), Add(Pow2(63), One), Sub(Pow2(63), One), Sub(UintMax(64), One), UintMax(64)} }
 DblPool == {Inf(TRUE), Inf(FALSE), Zero(TRUE), Zero(FALSE)} \cup
-           { Fin(s, me[1], me[2]) : s \in BOOLEAN, me \in { <<<<1>>, 0>>, <<<<3>>, -1>>, <<<<1>>, -1074>>, <<<<1>>, 53>>, <<MSub(MPow2(53), <<1>>), 0>>, <<MSub(MPow2(53), <<1>>), 1>>, <<<<1>>, 1023>>, <<<<5>>, -2>> } }
+           { Fin(s, me[1], me[2]) : s \in BOOLEAN, me \in { <<<<1>>, 0>>, <<<<3>>, -1>>, <<<<1>>, -1074>>, <<<<1>>, 53>>, <<MSub(MPow2(53), <<1>>), 0>>, <<MSub(MPow2(53), <<1>>), 1>>, <<<<1>>, 1023>>, <<<<5>>, -2>>,
+                                                            \* neighbours: 1 and the next double, the two largest finite doubles, 0.3 and the next double
+                                                            <<MAdd(MPow2(52), <<1>>), -52>>, <<MSub(MPow2(53), <<1>>), 971>>, <<MSub(MPow2(53), <<2>>), 971>>,
+                                                            <<FromDigits(<<5, 4, 0, 4, 3, 1, 9, 5, 5, 2, 8, 4, 4, 5, 9, 5>>, 10), -54>>, <<FromDigits(<<5, 4, 0, 4, 3, 1, 9, 5, 5, 2, 8, 4, 4, 5, 9, 6>>, 10), -54>> } }
 StrPool == { Str(s) : s \in { <<>>, <<97>>, <<97, 98>>, <<98>>, <<65>>, <<233>>, <<97, 233>>, <<65535>>, <<128049>>, <<97, 128049>>, <<0>>, <<97, 0>> } }
 BytesPool == { Bytes(s) : s \in { <<>>, <<0>>, <<0, 0>>, <<97>>, <<97, 0>>, <<255>>, <<195, 169>>, <<128>> } }
 BoolPool == { Bool(TRUE), Bool(FALSE) }
